@@ -151,7 +151,8 @@ open RegexLite
 
 /-- C06, sequential clause as the code computes it — sites recomputed by the regular expressions on the text of
 every piece. For every text, every list of configs with zero missed cleavages, non-semi, complete digestion
-whose rules are zero-width (look-around only; true of every named protease but `no-cleave`), and every
+whose rules are local rules (`localRule`: look-around only — every named protease — or one consumed residue
+followed by look-around, the two documented styles of user rules), and every
 `min_len`/`max_len`: if no piece is cut at every position by one config alone (`StageShortcutFree`, decidable)
 and the union of all rules does not cut the text at every position (`UnionShortcutFree`, decidable; its
 negation is the pattern of known finding KF-C06-nonspecific-shortcut), then `sequential_digest` and the
@@ -161,7 +162,7 @@ exception for it. -/
 theorem sequential_eq_simultaneous_text (text : List Char) (configs : List EnzymeConfig) (lo hi : Option Int)
     (hne : configs ≠ [])
     (hplain : ∀ c ∈ configs, c.mc = 0 ∧ c.semi = false ∧ c.complete = true)
-    (hzw : ∀ c ∈ configs, ∀ p ∈ c.regex, ∀ it ∈ p, it.zeroWidth = true)
+    (hzw : ∀ c ∈ configs, ∀ p ∈ c.regex, localRule p = true)
     (hstage : ∀ c ∈ configs, StageShortcutFree text c)
     (hunion : UnionShortcutFree text (configs.flatMap (fun c => c.regex))) (x : Span) :
     x ∈ seqDigestText text configs lo hi ↔
@@ -184,7 +185,7 @@ theorem sequential_eq_simultaneous_text (text : List Char) (configs : List Enzym
 /-- … and then the sequential digest has no duplicate either -/
 theorem nodup_seqDigestText (text : List Char) (configs : List EnzymeConfig) (lo hi : Option Int)
     (hplain : ∀ c ∈ configs, c.mc = 0 ∧ c.semi = false ∧ c.complete = true)
-    (hzw : ∀ c ∈ configs, ∀ p ∈ c.regex, ∀ it ∈ p, it.zeroWidth = true)
+    (hzw : ∀ c ∈ configs, ∀ p ∈ c.regex, localRule p = true)
     (hstage : ∀ c ∈ configs, StageShortcutFree text c) :
     (seqDigestText text configs lo hi).Nodup := by
   unfold seqDigestText
@@ -196,24 +197,31 @@ theorem nodup_seqDigestText (text : List Char) (configs : List EnzymeConfig) (lo
 /-- a config all of whose rules look behind, or all of whose rules look ahead positively, can never hit the
 shortcut on a piece: such rules never cut at the start (resp. the end) of a text -/
 theorem stageShortcutFree_of_lookaround (text : List Char) (c : EnzymeConfig)
-    (hzw : ∀ p ∈ c.regex, ∀ it ∈ p, it.zeroWidth = true)
+    (hzw : ∀ p ∈ c.regex, localRule p = true)
     (hsafe : (∀ p ∈ c.regex, startSafe p = true) ∨ (∀ p ∈ c.regex, endSafe p = true)) :
     StageShortcutFree text c :=
   stageShortcutFree_of_safe text c hzw hsafe
 
-/-- every rule of the generated protease table except `non-specific` and `no-cleave` has a look-behind or a
-positive look-ahead: used alone in a stage it satisfies `StageShortcutFree` on every text, so for named
-proteases, one per stage, the only remaining hypothesis is `UnionShortcutFree` -/
-theorem named_rules_lookaround :
-    ∀ e ∈ Gen.proteases, e.1 ≠ "non-specific".toList → e.1 ≠ "no-cleave".toList →
-      ∃ p, e.2 = some p ∧ (startSafe p = true ∨ endSafe p = true) := by
+/-- every rule of the generated protease table is a local rule, and every one except `non-specific` never cuts
+at the start or never cuts at the end of a text: used alone in a stage it satisfies `StageShortcutFree` on
+every text, so for named proteases, one per stage, the only remaining hypothesis is `UnionShortcutFree` -/
+theorem named_rules_local :
+    ∀ e ∈ Gen.proteases, ∃ p, e.2 = some p ∧ localRule p = true ∧
+      (e.1 ≠ "non-specific".toList → startSafe p = true ∨ endSafe p = true) := by
   decide +kernel
+
+/-- a local rule cuts at `x` iff `cutsAt` holds for the two residues adjacent to `x` (locality), for every
+local rule and every text -/
+theorem local_rule_semantics (p : Pattern) (h : localRule p = true) (s : List Char) (x : Nat) :
+    x ∈ sites p s ↔ x ≤ s.length ∧ cutsAt p (if x = 0 then none else s[x - 1]?) s[x]? = true :=
+  mem_sites_local p h s x
 
 /-- non-vacuity: the doctest `sequential_digest('XXXKXXXDXXX', [([KR]) then ([D])])` in look-behind form, all
 hypotheses of `sequential_eq_simultaneous_text` included -/
 example :
     let text := "XXXKXXXDXXX".toList
-    let cfgs : List EnzymeConfig := [⟨[[.behind ['K', 'R']]], 0, false, true⟩, ⟨[[.behind ['D']]], 0, false, true⟩]
+    let cfgs : List EnzymeConfig := [⟨[[.consume ['K', 'R']]], 0, false, true⟩, ⟨[[.behind ['D']]], 0, false, true⟩]
+    (∀ c ∈ cfgs, ∀ p ∈ c.regex, localRule p = true) ∧
     seqDigestText text cfgs none none = [(0, 4, 0), (4, 8, 0), (8, 11, 0)] ∧
       simDigestText text (cfgs.flatMap (fun c => c.regex)) none none = [(0, 4, 0), (4, 8, 0), (8, 11, 0)] ∧
       (∀ c ∈ cfgs, StageShortcutFree text c) ∧ UnionShortcutFree text (cfgs.flatMap (fun c => c.regex)) := by
